@@ -80,7 +80,8 @@ class AliasGen(Gen):
         orig = self.declare(ty, init)
         if orig is None:
             return 0
-        construct = r.choice(["init", "assign", "byvalue", "list_store", "field_store", "foreach", "return", "falls", "listlit", "boxing", "refcall", "same_twice", "global"])
+        construct = r.choice(["init", "assign", "byvalue", "byvalue", "list_store", "field_store", "foreach", "return", "falls", "listlit", "boxing", "refcall", "same_twice",
+                              "same_twice", "part_ref", "part_ref", "global", "recursive"])
         self.cells.add(("construct", construct, progcheck.tn(ty)))
         n0 = self.obs
         cp_name = self.fresh("k")
@@ -174,6 +175,57 @@ class AliasGen(Gen):
                 return 0
             self.obs += 1
             return self.obs - n0
+        elif construct == "part_ref":
+            # f(k by value, <part of k> by Referenz): the callee changes the part through the reference and then reads its value parameter
+            parts = []
+            if is_struct(ty):
+                parts = [(Field(orig, "werte", L(Z)), L(Z)), (Bin("index", Field(orig, "werte", L(Z)), Lit(Z, 1), Z), Z), (Field(orig, "name", T), T), (Field(orig, "x", Z), Z)]
+            elif is_list(ty) and ty[1] != C:
+                parts = [(Bin("index", orig, Lit(Z, 1), ty[1]), ty[1])]
+                if is_struct(ty[1]):
+                    parts.append((Field(Bin("index", orig, Lit(Z, 1), ty[1]), "name", T), T))
+            if not parts:
+                return 0
+            part, pty = r.choice(parts)
+            fn = self.fresh("pr")
+            a, b = Param("a_" + fn, ty), Param("b_" + fn, pty, ref=True)
+            bvar = Var(b.name, pty)
+            if pty == Z:
+                mut_b = [Assign(bvar, Lit(Z, r.choice([99, -5, 12345])))]
+            elif pty == T:
+                mut_b = [Assign(bvar, Lit(T, "durch Referenz"))]
+            elif pty in (K, B, W, C):
+                mut_b = [Assign(bvar, self.lit(pty))]
+            else:
+                mut_b = self.mutation(bvar, r)
+            flavour = r.choice(["read_only", "read_only", "assigning"])
+            self.cells.add(("part_ref", flavour, progcheck.tn(ty), progcheck.tn(pty)))
+            body = mut_b + self.print_value(Var(a.name, ty))
+            if flavour == "assigning":
+                body += self.mutation(Var(a.name, ty), r) + self.print_value(Var(a.name, ty))
+            params = [a, b] if r.random() < 0.5 else [b, a]
+            args = [orig, part] if params[0] is a else [part, orig]
+            f = FuncDecl(fn, params, NICHTS, body)
+            self.prog.items.append(f)
+            if not self.try_top([Print(Lit(T, "#%d:" % (self.obs + 1)), False), ExprStmt(Call(f, args, NICHTS))] + self.observe(orig)):
+                return 0
+            self.obs += 1
+            return self.obs - n0
+        elif construct == "recursive":
+            # a recursive callee passes its own by-value parameter on, by value and as Referenz
+            fn = self.fresh("rk")
+            n, a, b = Param("n_" + fn, Z), Param("a_" + fn, ty), Param("b_" + fn, ty, ref=True)
+            f = FuncDecl(fn, [n, a, b], NICHTS, [])
+            rec = Call(f, [Bin("minus", Var(n.name, Z), Lit(Z, 1), Z), Var(a.name, ty), Var(a.name, ty)], NICHTS)
+            f.body = [If([(Bin("groesser", Var(n.name, Z), Lit(Z, 0), W), [ExprStmt(rec)])])] + self.mutation(Var(b.name, ty), r) + self.print_value(Var(a.name, ty))
+            self.prog.items.append(f)
+            other = self.declare(ty, self.nonempty_lit(ty) if ty != V else Cast(Lit(T, "anderes"), V))
+            if other is None:
+                return 0
+            if not self.try_top([Print(Lit(T, "#%d:" % (self.obs + 1)), False), ExprStmt(Call(f, [Lit(Z, r.randint(1, 2)), orig, other], NICHTS))] + self.observe(orig) + self.observe(other)):
+                return 0
+            self.obs += 1
+            return self.obs - n0
         elif construct == "global":
             # callee assigns a global that it also receives by value
             fn = self.fresh("gl")
@@ -201,11 +253,29 @@ class AliasGen(Gen):
 
 
 def build(rnd):
+    """about half of the cases are moved into a function of their own, so that the holders are LOCAL variables
+    (the -O 2 copy elision only applies to locals; globals are always copied)"""
     g = AliasGen(rnd)
     tries = 0
     while g.obs < 40 and tries < 60:
         tries += 1
-        g.case()
+        i0 = len(g.prog.items)
+        vars0 = len(g.scope.vars)
+        n = g.case()
+        new_items = g.prog.items[i0:]
+        uses_global = any(isinstance(c, tuple) and c[0] == "construct" and c[1] == "global" for c in g.cells) and any(
+            isinstance(it, FuncDecl) and it.name.startswith("gl") for it in new_items)
+        if n and new_items and not uses_global and rnd.random() < 0.55:
+            decls = [it for it in new_items if isinstance(it, (FuncDecl, StructDecl))]
+            stmts = [it for it in new_items if not isinstance(it, (FuncDecl, StructDecl))]
+            if stmts:
+                wname = g.fresh("lokal")
+                wrapper = FuncDecl(wname, [], NICHTS, stmts)
+                g.prog.items[i0:] = decls + [wrapper, ExprStmt(Call(wrapper, [], NICHTS))]
+                del g.scope.vars[vars0:]
+                g.cells.add(("holders", "local"))
+        elif n:
+            g.cells.add(("holders", "global"))
     return g
 
 
